@@ -205,6 +205,8 @@ def history(seed, cfg):
             for st in l.split(b"|"):
                 longest = max(longest, len(st) + 1)
         stats["hist_with_multiblock_stem"] += 1 if longest > 74 else 0
+        for note in getattr(s, "notes", []):
+            stats["scenario_" + note] += 1
         res = {"seed": seed, "ncmds": len(s.cmds), "stats": dict(stats), "mismatches": []}
         for m in mm:
             j = m.to_json()
